@@ -42,6 +42,8 @@ CONSTANTS Hash,        \* entry hashes
           Bad,         \* entries that the log refuses to join (access controller / signature)
           SyncPass,    \* refused entries that nevertheless pass the checks Sync makes on an announced head (written
                        \* for another database by an authorised writer): queued and fetched, refused at the join
+          Cached,      \* entries the store can load from its own cache (a replica restarted and not yet loaded): its
+                       \* Load may run while requests are queued or being fetched
           Abort,       \* announced heads whose hash does not match their contents: Sync gives the whole announcement up
           NReq,        \* requests are 1..NReq; request NReq is never cancelled
           ReqHeads,    \* request -> sequence of hashes
@@ -171,7 +173,13 @@ JoinBatch ==
     /\ bus' = Tail(bus)
     /\ UNCHANGED <<tasks, queue, inProg, sem, buffer, req, ctx, workers, cancels>>
 
-Next == \/ \E q \in Reqs : Request(q)
+\* BaseStore.Load of the store itself: the cached entries enter the log, whatever the replicator is doing with them
+StoreLoad == /\ ~(Cached \subseteq log)
+             /\ log' = log \cup Cached
+             /\ UNCHANGED <<tasks, queue, inProg, sem, buffer, req, ctx, workers, bus, cancels>>
+
+Next == \/ StoreLoad
+        \/ \E q \in Reqs : Request(q)
         \/ \E w \in 1..MaxW : Acquire(w)
         \/ \E w \in 1..MaxW : AcquireFail(w)
         \/ \E w \in 1..MaxW : FetchStart(w)
